@@ -9,6 +9,9 @@ import numpy.linalg as la
 import scipy.optimize as opt
 import multiprocess
 
+# numpy 2 renamed trapz to trapezoid (and later removed the old name)
+_trapezoid = getattr(np, "trapezoid", None) or np.trapz
+
 
 class WeibullFailureModel:
     """Parent class for time independent Weibull failure models
@@ -371,7 +374,7 @@ class CrackShapeDependent(WeibullFailureModel):
         else:
             sigma_e[sigma_e < 0] = 0
             g = (
-                np.trapz(
+                _trapezoid(
                     (sigma_e / (sigma_e_max + self.tolerance))
                     ** Nvavg[..., None, None],
                     time,
@@ -515,7 +518,7 @@ class PIAModel(CrackShapeIndependent):
             pstress_0 = pstress
         else:
             g = (
-                np.trapz(
+                _trapezoid(
                     (pstress / (pstress_max + 1.0e-14)) ** Nvavg[..., None],
                     time,
                     axis=0,
@@ -584,7 +587,7 @@ class WNTSAModel(CrackShapeIndependent):
             sigma_n_0 = sigma_n
         else:
             g = (
-                np.trapz(
+                _trapezoid(
                     (sigma_n / (sigma_n_max + self.tolerance))
                     ** Nvavg[..., None, None],
                     time,
